@@ -30,6 +30,7 @@ static bool inside(const Vec& V, const void* p, size_t n) {
     const char* b = V.arena.data(); return (const char*)p >= b && (const char*)p + n <= b + V.arena.size();
 }
 // one test case: op code, element lengths, argument(s)
+static char JUNK[16] = {'J','U','N','K','J','U','N','K','J','U','N','K','J','U','N','K'};
 static bool run_case(int op, const std::vector<size_t>& lens, size_t a, size_t b, const std::vector<size_t>& lens2) {
     Vec V; make(V, lens, 'a');
     std::vector<iovec> work = V.iov; work.push_back({nullptr, 0});
@@ -45,28 +46,32 @@ static bool run_case(int op, const std::vector<size_t>& lens, size_t a, size_t b
               for (size_t i = 0; i < 8; ++i) if (buf[i] != '#' || buf[8 + a + i] != '#') FAIL("extract_front(buf): wrote outside the buffer");
               for (size_t i = r; i < a; ++i) if (buf[8 + i] != '#') FAIL("extract_front(buf): wrote beyond ret");
               if (flat_of(v) != F.substr(r)) FAIL("extract_front(buf): view is not the remaining bytes"); break; }
-    case 4: { std::vector<iovec> out(b + 1); iovector_view o(out.data(), (int)b); ssize_t r = v.extract_front(a, &o);
+    case 4: { std::vector<iovec> out(b + 1, iovec{JUNK, 5}); iovector_view o(out.data(), (int)b); ssize_t r = v.extract_front(a, &o);
               if (r >= 0) { if ((size_t)r != std::min(a, T)) FAIL("extract_front(iov): wrong return"); if (flat_of(o) != F.substr(0, r)) FAIL("extract_front(iov): output is not the extracted bytes");
                             if (o.iovcnt > (int)b) FAIL("extract_front(iov): output overflow"); if (flat_of(v) != F.substr(r)) FAIL("extract_front(iov): view is not the remaining bytes"); }
-              else if (r != -1) FAIL("extract_front(iov): bad error value"); break; }
+              else { if (r != -1) FAIL("extract_front(iov): bad error value");
+                     size_t need = 0, acc = 0; for (auto l : lens) { if (acc < a) need++; acc += l; }   // one slot per element visited while bytes are still wanted
+                     if (b >= need) FAIL("extract_front(iov): returned -1 although the extracted range fits in the output array"); } break; }
     case 5: { size_t r = v.extract_back(a); if (r != std::min(a, T)) FAIL("extract_back: wrong return"); if (flat_of(v) != F.substr(0, T - r)) FAIL("extract_back: view is not the remaining bytes"); break; }
     case 6: { std::vector<char> buf(a + 16, '#'); size_t r = v.extract_back(a, buf.data() + 8);
               if (r != std::min(a, T)) FAIL("extract_back(buf): wrong return");
               if (std::string(buf.data() + 8 + (a - r), r) != F.substr(T - r)) FAIL("extract_back(buf): wrong bytes copied");
               for (size_t i = 0; i < 8; ++i) if (buf[i] != '#' || buf[8 + a + i] != '#') FAIL("extract_back(buf): wrote outside the buffer");
               if (flat_of(v) != F.substr(0, T - r)) FAIL("extract_back(buf): view is not the remaining bytes"); break; }
-    case 7: { std::vector<iovec> out(b + 1); iovector_view o(out.data(), (int)b); ssize_t r = v.extract_back(a, &o);
+    case 7: { std::vector<iovec> out(b + 1, iovec{JUNK, 5}); iovector_view o(out.data(), (int)b); ssize_t r = v.extract_back(a, &o);
               if (r >= 0) { if ((size_t)r != std::min(a, T)) FAIL("extract_back(iov): wrong return"); if (flat_of(o) != F.substr(T - r)) FAIL("extract_back(iov): output is not the extracted bytes");
                             if (o.iov < out.data() || o.iov + o.iovcnt > out.data() + b) FAIL("extract_back(iov): output outside the array");
                             if (flat_of(v) != F.substr(0, T - r)) FAIL("extract_back(iov): view is not the remaining bytes"); }
-              else if (r != -1) FAIL("extract_back(iov): bad error value"); break; }
+              else { if (r != -1) FAIL("extract_back(iov): bad error value");
+                     size_t need = 0, acc = 0; for (size_t i = lens.size(); i-- > 0;) { if (acc < a) need++; acc += lens[i]; }
+                     if (b >= need) FAIL("extract_back(iov): returned -1 although the extracted range fits in the output array"); } break; }
     case 8: { if (lens.empty()) break; void* p = v.extract_front_continuous(a);
               if (lens[0] < a) { if (p) FAIL("extract_front_continuous: should fail"); if (flat_of(v) != F) FAIL("extract_front_continuous: failed but changed the vector"); }
               else { if (p != V.iov[0].iov_base) FAIL("extract_front_continuous: wrong pointer"); if (flat_of(v) != F.substr(a)) FAIL("extract_front_continuous: view is not the remaining bytes"); } break; }
     case 9: { if (lens.empty()) break; void* p = v.extract_back_continuous(a); size_t ll = lens.back();
               if (ll < a) { if (p) FAIL("extract_back_continuous: should fail"); if (flat_of(v) != F) FAIL("extract_back_continuous: failed but changed the vector"); }
               else { if (p != (char*)V.iov.back().iov_base + (ll - a)) FAIL("extract_back_continuous: wrong pointer"); if (flat_of(v) != F.substr(0, T - a)) FAIL("extract_back_continuous: view is not the remaining bytes"); } break; }
-    case 10: { std::vector<iovec> out(b + 1); iovector_view o(out.data(), (int)b); size_t off = lens2.empty() ? 0 : lens2[0];
+    case 10: { std::vector<iovec> out(b + 1, iovec{JUNK, 5}); iovector_view o(out.data(), (int)b); size_t off = lens2.empty() ? 0 : lens2[0];
               ssize_t r = v.slice(a, (off_t)off, &o);
               if (b == 0) { if (r != -1) FAIL("slice: empty output array must give -1"); break; }
               if (r < 0) FAIL("slice: unexpected failure");
@@ -88,6 +93,26 @@ static bool run_case(int op, const std::vector<size_t>& lens, size_t a, size_t b
               for (size_t i = 0; i < D.arena.size(); ++i) { bool in = false; for (auto& e : D.iov) if (&D.arena[i] >= (char*)e.iov_base && &D.arena[i] < (char*)e.iov_base + e.iov_len) in = true; if (!in && D.arena[i] != 0) FAIL("copy wrote outside the destination elements"); }
               if (op == 11) { if (flat_of(v) != F) FAIL("memcpy_to changed the source"); }
               else if (flat_of(v) != F.substr(r)) FAIL("pipe_to: source is not the remaining bytes");
+              break; }
+    case 13: case 14: { // owning IOVector: extract_front_continuous / extract_back_continuous (may copy into an internal buffer)
+              IOVector iv; for (auto& e : V.iov) iv.push_back(e.iov_base, e.iov_len);
+              void* p = (op == 13) ? iv.extract_front_continuous(a) : iv.extract_back_continuous(a);
+              std::string rest; for (auto& e : iv) rest.append((const char*)e.iov_base, e.iov_len);
+              if (a > T) { if (p) FAIL("IOVector::extract_*_continuous: more than the content must fail"); if (rest != F) FAIL("IOVector::extract_*_continuous failed but changed the vector"); }
+              else if (a > 0) { if (!p) FAIL("IOVector::extract_*_continuous: enough data but returned null");
+                     if (op == 13) { if (std::string((char*)p, a) != F.substr(0, a)) FAIL("IOVector::extract_front_continuous: wrong bytes"); if (rest != F.substr(a)) FAIL("IOVector::extract_front_continuous: vector is not the remaining bytes"); }
+                     else { if (std::string((char*)p, a) != F.substr(T - a)) FAIL("IOVector::extract_back_continuous: wrong bytes"); if (rest != F.substr(0, T - a)) FAIL("IOVector::extract_back_continuous: vector is not the remaining bytes"); } }
+              break; }
+    case 15: case 16: { // owning IOVector: extract_front / extract_back / truncate / sum
+              IOVector iv; for (auto& e : V.iov) iv.push_back(e.iov_base, e.iov_len);
+              if (iv.sum() != T) FAIL("IOVector::sum");
+              size_t r = (op == 15) ? iv.extract_front(a) : iv.extract_back(a);
+              std::string rest; for (auto& e : iv) rest.append((const char*)e.iov_base, e.iov_len);
+              if (r != std::min(a, T)) FAIL("IOVector::extract_front/back: wrong return");
+              if (rest != (op == 15 ? F.substr(r) : F.substr(0, T - r))) FAIL("IOVector::extract_front/back: vector is not the remaining bytes");
+              size_t t2 = rest.size() ? b % (rest.size() + 1) : 0; iv.truncate(t2);
+              std::string rest2; for (auto& e : iv) rest2.append((const char*)e.iov_base, e.iov_len);
+              if (rest2 != rest.substr(0, t2)) FAIL("IOVector::truncate: vector is not the first bytes");
               break; }
     }
     return true;
@@ -116,7 +141,7 @@ int main(int argc, char** argv) {
     uint64_t N = argc > 1 ? strtoull(argv[1], 0, 10) : 200000, cases = 0;
     const char* sd = getenv("VERIF_SEED"); rs_ = 0x9E3779B97F4A7C15ull ^ (sd ? strtoull(sd, 0, 10) * 0x100000001B3ull : 1);
     for (uint64_t k = 0; k < N; ++k) {
-        int op = rnd() % 13; int n = rnd() % 7; int n2 = rnd() % 5;
+        int op = rnd() % 17; int n = rnd() % 7; int n2 = rnd() % 5;
         std::vector<size_t> lens, lens2; size_t T = 0;
         for (int i = 0; i < n; ++i) { size_t l = (rnd() % 3 == 0) ? 0 : rnd() % 9; lens.push_back(l); T += l; }
         for (int i = 0; i < n2; ++i) lens2.push_back((rnd() % 3 == 0) ? 0 : rnd() % 9);
@@ -125,6 +150,6 @@ int main(int argc, char** argv) {
         ++cases;
         if (!run_case(op, lens, a, b, lens2)) { print_case("CEX", op, lens, a, b, lens2); return 3; }
     }
-    printf("OK %lu (random vectors of 0..6 elements incl. zero-length, 13 operations, flat-string oracle)\n", cases);
+    printf("OK %lu (random vectors of 0..6 elements incl. zero-length, 17 operations incl. the owning IOVector wrappers, flat-string oracle)\n", cases);
     return 0;
 }
